@@ -62,7 +62,7 @@ def run_pairs(ctx):
 
     cases = qprog.pair_cases()
     enumerate_cases(ctx, cases[ctx.shard :: ctx.nshards], exec_program,
-                    exhaustive_name="pair programs source -> binary operation: 12 quantized source kinds x 16 operations x 36 companion modes x 6 argument variants")
+                    exhaustive_name="pair programs source -> binary operation: 12 quantized source kinds x 16 operations x 36 companion modes x 8 argument variants")
 
 
 SUBCHECKS = {"program": {"run": run, "execute": exec_program}, "alias": {"run": run_alias, "execute": exec_program},
